@@ -334,6 +334,7 @@ full:
 
 		var pbytes, pBatchesAdded int
 		var lastMeta *batchMeta
+		var reqFull bool
 		// Walk batches starting from the found position (segIdx, metaIdx).
 		// The first segment starts at metaIdx; subsequent segments start at 0.
 	segments:
@@ -349,7 +350,12 @@ full:
 					break segments
 				}
 				if nbytes += int(m.nbytes); nbytes > int(req.MaxBytes) && batchesAdded > 0 {
-					break full
+					// The request is full. We must still attach the
+					// aborted transactions for the batches this
+					// partition already returned, so we only leave
+					// the outer loop after that lookup below.
+					reqFull = true
+					break segments
 				}
 				if pbytes += int(m.nbytes); pbytes > int(fp.maxBytes) && batchesAdded > 0 {
 					break segments
@@ -385,6 +391,9 @@ full:
 				at.FirstOffset = e.firstOffset
 				sp.AbortedTransactions = append(sp.AbortedTransactions, at)
 			}
+		}
+		if reqFull {
+			break full
 		}
 	}
 
